@@ -734,9 +734,10 @@ End TaffyRealInstance.
    every absolute-item routine that addresses only its own node.  Hence: with fuel >= the height of the tree the complete engine, its
    compute_root_layout and any sequence of passes succeed, whatever the caches and stored layouts hold, for every key equality `teq`.
    The runners use fuel 64 and the harness generates trees of depth <= 64, so their fuel-exhaustion marker can never be printed.
-   NOT covered: the real-cache engines (Model/EngineReal.v `gmemo` / `memo_real`: EngineTotal.memo_total is about `memo`; the same
-   induction would go through but is not written). *)
+   The real-cache engines (Model/EngineReal.v `gmemo` / `memo_real`) are covered by the same induction replayed over the cache interface
+   (Proofs/EngineRealTotal.v): C01_real_cache_engine_total and its two instances below. *)
 From TV Require Proofs.EngineTotal Proofs.TaffyTotal Proofs.BlockAbsLocal Model.BlockAlg Model.BlockEngine Model.BlockAbs.
+From TV Require Model.EngineReal Proofs.EngineRealTotal Proofs.TaffyRealTotal Model.TaffyEngineReal Model.BlockEngineReal.
 Module TaffyTotality.
   Import Num.Num Model.Common Model.Leaf Model.FlexAlgBase Model.BlockFlexEngine Model.TaffyEngine Model.TaffyRoot.
 
@@ -790,6 +791,34 @@ Module TaffyTotality.
       exists o t', BlockEngine.bl_memo pre BlockAbs.abs_child_block fuel t i = Some (o, t').
   Proof. intros T N pre fuel t i Hh. apply TaffyTotal.bl_memo_total; [apply BlockAbsLocal.abs_child_block_local|exact Hh]. Qed.
   Print Assumptions C01_bl_engine_total.
+
+  (* ... and the REAL-CACHE engines (Model/EngineReal.v `gmemo` over any cache implementation: Proofs/EngineRealTotal.v gmemo_total, the
+     induction of C01_memo_total replayed): the complete engine `trl_memo` and the block engine `blr_memo` the real-cache whole-tree
+     correspondences run -- every ghost equality, cache content, counters, stored layouts, input *)
+  Theorem C01_real_cache_engine_total :
+    forall (S In Out Lay : Type) (mode : In -> Engine.RunMode) (is_none : S -> bool) (hidden_out : Out) (zero_lay : Lay)
+           (algo : S -> list S -> In -> Engine.Alg In Out Lay) (mcalls : S -> list S -> In -> N)
+           (C : Type) (cget : C -> In -> option Out) (clossy : C -> In -> bool) (cstore : C -> In -> Out -> C) (cclear : C -> C),
+      (forall s st i, EngineTotal.Bounded In Out Lay (length st) (algo s st i)) ->
+      forall f t i, EngineRealTotal.gheight S Lay C t <= f ->
+        exists o t', EngineReal.gmemo S In Out Lay mode is_none hidden_out zero_lay algo mcalls C cget clossy cstore cclear f t i = Some (o, t').
+  Proof. intros until cclear. intros HB f t i Hh. apply EngineRealTotal.gmemo_total; assumption. Qed.
+  Print Assumptions C01_real_cache_engine_total.
+
+  Theorem C01_real_taffy_engine_total :
+    forall (T : Type) (N : Num T) (teq : T -> T -> bool) (fuel : nat) (t : @TaffyEngineReal.trtree T) (i : FIn T),
+      EngineRealTotal.gheight (TStyle T) (FLay T) (EngineReal.rcache (FIn T) (LayoutOutput T)) t <= fuel ->
+      exists o t', TaffyEngineReal.trl_memo teq fuel t i = Some (o, t').
+  Proof. intros T N teq fuel t i Hh. apply TaffyRealTotal.trl_memo_total. exact Hh. Qed.
+  Print Assumptions C01_real_taffy_engine_total.
+
+  Theorem C01_real_bl_engine_total :
+    forall (T : Type) (N : Num T) (teq : T -> T -> bool) (pre : Block.BStyle T -> BlockAlg.BIn T -> BlockAlg.BIn T) (fuel : nat)
+           (t : @BlockEngineReal.brtree T) (i : BlockAlg.BIn T),
+      EngineRealTotal.gheight (BlockEngine.BNode T) (BlockAlg.BLayout T) (EngineReal.rcache (BlockAlg.BIn T) (Block.ChildOut T)) t <= fuel ->
+      exists o t', BlockEngineReal.blr_memo teq pre BlockAbs.abs_child_block fuel t i = Some (o, t').
+  Proof. intros T N teq pre fuel t i Hh. apply TaffyRealTotal.blr_memo_total; [apply BlockAbsLocal.abs_child_block_local|exact Hh]. Qed.
+  Print Assumptions C01_real_bl_engine_total.
 
   (* the premise is satisfiable: the 10-node example tree of C01_taffy_engine_example (all container kinds) has 3 levels *)
   Example C01_taffy_engine_total_example :
